@@ -123,6 +123,7 @@ func RunPlan(t *testing.T, p *Plan) (res *RunResult) {
 			}
 			sleepUntil(p.Start)
 			w := NewWorld(p)
+			w.DriverG = goid()
 			w.Online = &res.Online
 			res.H = w.H
 			if f := setupHooks[p.Prop]; f != nil {
